@@ -1,9 +1,7 @@
-(* C11_Proofs3.v — when is utils.ToStringKey faithful to value equality?
-   Sufficient condition, with a failing witness for every clause dropped (C11_Proofs2):
-     - no string part contains the separator '_'            (else c11_refuted_separator)
-     - no string part is the text "nil"                     (else c11_refuted_nil)
-     - no by-value integer part is 0                        (else c11_refuted_zero)
-     - corresponding parts have the same column type (schema typing). *)
+(* C11_Proofs3.v — string / decimal lemmas used for the current encoding (C11_Proofs5), and, as a
+   historical note, the sufficient condition under which the PREVIOUS utils.ToStringKey (before fix
+   5d340d3) was faithful to value equality: no '_' in string parts, no string "nil", no by-value
+   integer 0, same column types (each clause had a failing witness, C11_Proofs2). *)
 From Coq Require Import DecimalString DecimalZ.
 From Verif Require Import Base C11_Model C11_Proofs.
 Open Scope nat_scope.
@@ -98,7 +96,7 @@ Definition sort_ok (p q : keypart) : bool :=
   end.
 Definition compat (k1 k2 : key) : Prop := Forall2 (fun p q => sort_ok p q = true) k1 k2.
 
-Lemma clean_no_us p : clean_part p = true -> has_us (part_str p) = false.
+Lemma clean_no_us p : clean_part p = true -> has_us (part_str_prev p) = false.
 Proof.
   destruct p; cbn; intro H; try (apply allok_no_us, dec_allok); try reflexivity.
   - apply andb_prop in H. destruct H as [H _]. destruct (has_us s); [discriminate | reflexivity].
@@ -114,7 +112,7 @@ Qed.
 (* printing decides the value, part by part *)
 Lemma part_str_val p q :
   clean_part p = true -> clean_part q = true -> sort_ok p q = true ->
-  part_str p = part_str q -> part_val p = part_val q.
+  part_str_prev p = part_str_prev q -> part_val p = part_val q.
 Proof.
   intros Cp Cq S E.
   destruct p as [s|s|n|z|z|], q as [s'|s'|n'|z'|z'|]; cbn in *; try discriminate; try reflexivity;
@@ -130,7 +128,7 @@ Qed.
 
 Lemma part_val_str p q :
   clean_part p = true -> clean_part q = true ->
-  part_val p = part_val q -> part_str p = part_str q.
+  part_val p = part_val q -> part_str_prev p = part_str_prev q.
 Proof.
   intros Cp Cq E.
   destruct p as [s|s|n|z|z|], q as [s'|s'|n'|z'|z'|]; cbn in *; try discriminate; try reflexivity;
@@ -142,7 +140,7 @@ Proof.
     try reflexivity.
 Qed.
 
-Lemma clean_key_forall k : clean_key k = true -> Forall (fun s => has_us s = false) (map part_str k).
+Lemma clean_key_forall k : clean_key k = true -> Forall (fun s => has_us s = false) (map part_str_prev k).
 Proof.
   unfold clean_key. rewrite forallb_forall. intro H. apply Forall_forall. intros s Hs.
   apply in_map_iff in Hs. destruct Hs as [p [<- Hp]]. apply clean_no_us, H, Hp.
@@ -153,9 +151,9 @@ Proof. induction 1; cbn; auto. Qed.
 
 Lemma tsk_vals k1 k2 :
   clean_key k1 = true -> clean_key k2 = true -> compat k1 k2 ->
-  to_string_key k1 = to_string_key k2 -> kvals k1 = kvals k2.
+  to_string_key_prev k1 = to_string_key_prev k2 -> kvals k1 = kvals k2.
 Proof.
-  intros C1 C2 Cm E. unfold to_string_key in E.
+  intros C1 C2 Cm E. unfold to_string_key_prev in E.
   apply join_inj in E; [| rewrite !map_length; apply compat_length; exact Cm | apply clean_key_forall; exact C1 | apply clean_key_forall; exact C2].
   unfold clean_key in *. clear - C1 C2 Cm E. induction Cm as [|p q k1 k2 S Cm IH]; cbn in *; [reflexivity|].
   apply andb_prop in C1. apply andb_prop in C2. destruct C1 as [Cp C1], C2 as [Cq C2]. inversion E.
@@ -164,9 +162,9 @@ Qed.
 
 Lemma vals_tsk k1 k2 :
   clean_key k1 = true -> clean_key k2 = true ->
-  kvals k1 = kvals k2 -> to_string_key k1 = to_string_key k2.
+  kvals k1 = kvals k2 -> to_string_key_prev k1 = to_string_key_prev k2.
 Proof.
-  intros C1 C2 E. unfold to_string_key. f_equal. unfold clean_key, kvals in *.
+  intros C1 C2 E. unfold to_string_key_prev. f_equal. unfold clean_key, kvals in *.
   revert k2 C2 E. induction k1 as [|p k1 IH]; intros [|q k2] C2 E; cbn in *; try discriminate; [reflexivity|].
   apply andb_prop in C1. apply andb_prop in C2. destruct C1 as [Cp C1], C2 as [Cq C2]. inversion E.
   f_equal; [apply part_val_str; assumption | apply IH; assumption].
@@ -181,7 +179,7 @@ Qed.
 Theorem faithful_when ps cs :
   (forall k, In k ps \/ In k cs -> clean_key k = true) ->
   (forall k1 k2, In k1 ps -> In k2 ps \/ In k2 cs -> compat k1 k2) ->
-  keys_faithful to_string_key ps cs.
+  keys_faithful to_string_key_prev ps cs.
 Proof.
   intros Cl Cm. split.
   - intros k1 k2 H1 H2 _ _ E. apply tsk_vals; auto.
@@ -195,7 +193,7 @@ Qed.
 Example faithful_instance :
   let ps := [[KStr "a"; KStr "b"]; [KStr "a"; KStr "c"]; [KStr "a"; KStr "b"]] in
   let cs := [[KPStr "a"; KPStr "b"]; [KNil; KPStr "c"]; [KPStr "x y"; KPStr "c"]] in
-  keys_faithful to_string_key ps cs.
+  keys_faithful to_string_key_prev ps cs.
 Proof.
   cbn zeta. apply faithful_when.
   - intros k H. repeat (destruct H as [H|H]; [subst k; reflexivity|]); try destruct H as [H|H];
